@@ -13,9 +13,11 @@ Case format (JSON-able), shared by the three plug-ins:
 """
 import copy
 import json
+import keyword
 import os
 import shutil
 import tempfile
+import types
 
 from . import coqterm as ct
 from . import gen_tree as gt
@@ -50,6 +52,10 @@ def cleanup():
 # --------------------------------------------------------------------------
 # file system
 # --------------------------------------------------------------------------
+BAD_CONTENT = {"yaml": "a: [1, 2\nb: {x\n", "yml": "key: 'unterminated\n  - x: [\n",
+               "json": "{\"a\": 1,, }", "py": "def (:\n    a = = 1\n"}
+
+
 def _py_source(data):
     return "".join("%s = %r\n" % (k, v) for k, v in data.items())
 
@@ -72,6 +78,13 @@ def write_fs(root, fs):
         path = file_path(root, loc, sfx)
         if "ioerr" in entry:
             os.makedirs(path)            # open() -> IsADirectoryError (errno 21)
+            continue
+        if "loop" in entry:
+            os.symlink(path, path)       # open() -> OSError ELOOP (errno 40); chmod 000 is no
+            continue                     # obstacle for uid 0, a symlink loop is
+        if "bad" in entry:               # exists, cannot be parsed by the loader of its suffix
+            with open(path, "w") as f:
+                f.write(BAD_CONTENT[sfx])
             continue
         if "empty" in entry:
             with open(path, "w") as f:
@@ -98,11 +111,51 @@ def fs_entry_tree(entry):
 # --------------------------------------------------------------------------
 # driving the real Config
 # --------------------------------------------------------------------------
-def make_class(global_defaults=None, env_prefix=None, constant=False):
+def stock_defaults():
+    """Config.global_defaults() of the tree under test, minus the one entry that is
+    not data (runners.local is a class object)"""
+    from invoke.config import Config
+    d = copy.deepcopy(Config.global_defaults())
+    d.pop("runners", None)
+    return gt.jsonable(d)
+
+
+def py_overlay(a, b):
+    """harness-side deep union (b on top of a), for the effective defaults of a
+    stock-defaults case only"""
+    out = copy.deepcopy(a)
+    for k, v in (b or {}).items():
+        if isinstance(v, dict) and "__tuple__" not in v and isinstance(out.get(k), dict):
+            out[k] = py_overlay(out[k], v)
+        else:
+            out[k] = copy.deepcopy(v)
+    return out
+
+
+def effective_init(init):
+    """what the constructor's defaults level holds: with ``stock`` the class's own
+    global_defaults() when no defaults are passed"""
+    if not init.get("stock") or init.get("defaults") is not None:
+        return init          # global_defaults() is used only when no defaults are passed
+    return dict(init, defaults=stock_defaults())
+
+
+def make_class(global_defaults=None, env_prefix=None, constant=False, stock=False):
     """``constant``: global_defaults() hands out one and the same dict object on
     every call (so that a caller mutating it becomes observable)"""
     from invoke.config import Config
     gd = {} if global_defaults is None else global_defaults
+
+    if stock:
+        class StockCfg(Config):
+            prefix = "invoke"
+
+            @staticmethod
+            def global_defaults():
+                d = Config.global_defaults()
+                d.pop("runners", None)
+                return d
+        return StockCfg
 
     class Cfg(Config):
         prefix = "invoke"
@@ -151,6 +204,15 @@ class Session:
         obj = copy.deepcopy(_uj(tree))
         if self.keep_sources:
             self.sources.append((label, obj, copy.deepcopy(obj)))
+        kind = self.case.get("init", {}).get("mapkind")
+        if kind == "mp" and isinstance(obj, dict):
+            return types.MappingProxyType(obj)      # a read-only Mapping that is not a dict
+        if kind == "proxy" and isinstance(obj, dict) and obj:
+            # a section of ANOTHER config: a DataProxy (Mapping-like, not a dict)
+            other = make_class()(defaults={"s": obj}, lazy=True,
+                                 system_prefix=os.path.join(self.root, "nosys") + os.sep,
+                                 user_prefix=os.path.join(self.root, "nousr") + os.sep)
+            return other["s"]
         return obj
 
     def rt_path(self, rt):
@@ -182,7 +244,7 @@ class Session:
             kw["project_location"] = self.proj_path(init["proj"])
         if init.get("rt") is not None:
             kw["runtime_path"] = self.rt_path(init["rt"])
-        self.cfg = make_class()(**kw)
+        self.cfg = make_class(stock=bool(init.get("stock")))(**kw)
         return self.cfg
 
     # -- navigation: item or attribute syntax; steps known to succeed may use
@@ -256,6 +318,14 @@ class Session:
                     obj.update(**dict(kvs))
                 elif style == "pairs":
                     obj.update(kvs)
+                elif style == "gen":            # one-shot iterators: consumed by the first pass over them
+                    obj.update((k, v) for k, v in kvs)
+                elif style == "zip":
+                    obj.update(zip([k for k, _ in kvs], [v for _, v in kvs]))
+                elif style == "iter":
+                    obj.update(iter(kvs))
+                elif style == "none" and not kvs:
+                    obj.update()
                 else:
                     obj.update(dict(kvs))
                 return cfg, {"none": 1}
@@ -367,9 +437,36 @@ def abnormal(out):
     return "err" in out and out["err"] not in ("KeyError", "AttributeError")
 
 
+def _attr_readable(obj, k):
+    """attribute syntax is the documented alternative for keys that are identifiers
+    and are not real attributes / methods of the proxy"""
+    return (isinstance(k, str) and k.isidentifier() and not keyword.iskeyword(k)
+            and not k.startswith("__") and k not in dir(type(obj))
+            and k not in getattr(obj, "__dict__", {}))
+
+
+def mixed_view(x, depth=0):
+    """deep view of a DataProxy read through BOTH access syntaxes: every other key
+    (by position + depth) by attribute when attribute syntax applies to it.  An
+    AttributeError there is recorded as a value no model produces."""
+    if hasattr(x, "keys") and callable(x.keys) and hasattr(x, "__getitem__"):
+        out = {}
+        for i, k in enumerate(list(x.keys())):
+            if (i + depth) % 2 == 0 and hasattr(x, "_config") and _attr_readable(x, k):
+                try:
+                    v = getattr(x, k)
+                except AttributeError as e:
+                    v = "<AttributeError reading .%s: %s>" % (k, e)
+            else:
+                v = x[k]
+            out[k] = mixed_view(v, depth + 1)
+        return out
+    return x
+
+
 def view_of(cfg):
     # deep copy: list leaves of the cache must not stay aliased in the recorded observation
-    return gt.jsonable(copy.deepcopy(gt.deep_view(cfg)))
+    return gt.jsonable(copy.deepcopy(mixed_view(cfg)))
 
 
 def sfx_of(path):
@@ -464,7 +561,8 @@ def c_tree(t):
 
 
 def c_fentry(e):
-    if "ioerr" in e:
+    if "ioerr" in e or "loop" in e or "bad" in e:
+        # exists but cannot be read (not openable / not parsable): the spec's "unreadable"
         return "FIOErr"
     if "empty" in e:        # empty YAML document or JSON null: the loader returns None
         return "(FData (Leaf VNone))"
